@@ -1,8 +1,354 @@
 import Req.Driver.Proto
-/-! Driver lanes of C10. -/
-namespace Req.Driver.L.C10
-open Req.Proto
+import Req.Client.Retry
+import Req.Client.Attempt
+import Req.Client.Backoff
+/-!
+Driver lanes of C10.
 
-def lanes : List (String × (List String → String)) := []
+`c10run <variant> <clientOps> <reqOps> <conds> <hooks> <after> <script> <backoffObs>
+        <c.cookies> <c.headers> <c.form> <c.query> <c.allowGet>
+        <method> <url> <cookies> <headers> <form> <ordered> <query> <multipart> <files> <body>`
+→ the whole trace of `Request.Do` (events, per-attempt wire requests, final result).
+
+`c10backoff <guard> <min> <max> <attempt> <observed|p>` → `panic` / `ok` / `bad:<lo>:<hi>`.
+
+`c10policy <clientOps> <reqOps>` → the effective retry option.
+-/
+namespace Req.Driver.L.C10
+open Req.Proto Req.Retry Req.Attempt
+
+/-! ### decoding -/
+
+def splitList (sep : String) (s : String) : List String :=
+  if s == "-" then [] else s.splitOn sep
+
+def decPair (s : String) : Option (Bytes × Bytes) :=
+  match s.splitOn ":" with
+  | [a, b] => do pure (← decodeHex a, ← decodeHex b)
+  | _ => none
+
+def decPairs (s : String) : Option (List (Bytes × Bytes)) := (splitList ";" s).mapM decPair
+
+def decMultiEntry (s : String) : Option (Bytes × List Bytes) :=
+  match s.splitOn ":" with
+  | [k, vs] => do pure (← decodeHex k, ← (vs.splitOn ",").mapM decodeHex)
+  | _ => none
+
+def decMulti (s : String) : Option Multi := (splitList ";" s).mapM decMultiEntry
+
+def decBool (s : String) : Option Bool :=
+  if s == "1" then some true else if s == "0" then some false else none
+
+def decVariant (s : String) : Option Variant :=
+  match s.toList with
+  | [a, b, c, d, e] => do
+    let f (ch : Char) : Option Bool := if ch == '1' then some true else if ch == '0' then some false else none
+    pure ⟨← f a, ← f b, ← f c, ← f d, ← f e⟩
+  | _ => none
+
+def dropS (s : String) (n : Nat) : String := String.ofList (s.toList.drop n)
+def takeS (s : String) (n : Nat) : String := String.ofList (s.toList.take n)
+
+def decInterval (s : String) : Option IntervalSrc :=
+  let rest := dropS s 1
+  match takeS s 1 with
+  | "d" => if rest == "" then some .dflt else none
+  | "f" => rest.toNat?.map .fn
+  | "x" => rest.toNat?.map .fixed
+  | "b" =>
+    match rest.splitOn ":" with
+    | [a, b] => do pure (.backoff (← a.toInt?) (← b.toInt?))
+    | _ => none
+  | _ => none
+
+def decSetter (s : String) : Option Setter :=
+  let rest := dropS s 2
+  match takeS s 2 with
+  | "n=" => rest.toInt?.map .count
+  | "i=" => (decInterval rest).map .interval
+  | "sh" => rest.toNat?.map .setHook
+  | "ah" => rest.toNat?.map .addHook
+  | "sc" => rest.toNat?.map .setCond
+  | "ac" => rest.toNat?.map .addCond
+  | _ => none
+
+def decSetters (s : String) : Option (List Setter) := (splitList "," s).mapM decSetter
+
+/-- The behaviour table of the logging stubs (conditions, failing response middleware). -/
+inductive Pred
+  | err | statusGe (n : Nat) | statusEq (n : Nat) | attemptLt (n : Nat) | always | never
+deriving Repr
+
+def Pred.eval (p : Pred) (o : Obs) : Bool :=
+  match p with
+  | .err => o.err.isSome
+  | .statusGe n => match o.resp with | .status c => decide (n ≤ c) | _ => false
+  | .statusEq n => match o.resp with | .status c => c == n | _ => false
+  | .attemptLt n => decide (o.attempt < n)
+  | .always => true
+  | .never => false
+
+def decPred (s : String) : Option Pred :=
+  let rest := dropS s 1
+  match takeS s 1 with
+  | "E" => if rest == "" then some .err else none
+  | "T" => if rest == "" then some .always else none
+  | "F" => if rest == "" then some .never else none
+  | "G" => rest.toNat?.map .statusGe
+  | "Q" => rest.toNat?.map .statusEq
+  | "L" => rest.toNat?.map .attemptLt
+  | _ => none
+
+def decPreds (s : String) : Option (List Pred) := (splitList "," s).mapM decPred
+
+/-- What a hook stub does to the request. -/
+inductive HookAct
+  | noop
+  | setHeader (k v : Bytes)
+  | addCookie (n v : Bytes)
+  | setQuery (k v : Bytes)
+  | setBody (b : Bytes)
+
+def HookAct.apply (a : HookAct) (_ : Obs) (st : ReqState) : ReqState :=
+  match a with
+  | .noop => st
+  | .setHeader k v => { st with headers := put st.headers k [v] }
+  | .addCookie n v => { st with cookies := st.cookies ++ [(n, v)] }
+  | .setQuery k v => { st with query := put st.query k [v] }
+  | .setBody b => { st with body := .bytes b }
+
+def decHook (s : String) : Option HookAct :=
+  let rest := dropS s 1
+  match takeS s 1 with
+  | "N" => if rest == "" then some .noop else none
+  | "H" => (decPair rest).map fun p => .setHeader p.1 p.2
+  | "K" => (decPair rest).map fun p => .addCookie p.1 p.2
+  | "Q" => (decPair rest).map fun p => .setQuery p.1 p.2
+  | "B" => (decodeHex rest).map .setBody
+  | _ => none
+
+def decHooks (s : String) : Option (List HookAct) := (splitList "," s).mapM decHook
+
+def decOutcome (s : String) : Option Outcome :=
+  let rest := dropS s 1
+  match takeS s 1 with
+  | "s" => rest.toNat?.map .status
+  | "b" => rest.toNat?.map .badBody
+  | "t" => if rest == "" then some .transportErr else none
+  | "d" => if rest == "" then some .deadline else none
+  | "c" => if rest == "" then some .cancelled else none
+  | "z" => if rest == "" then some .nilResp else none
+  | "e" => if rest == "" then some .beforeErr else none
+  | _ => none
+
+def decScript (s : String) : Option (List Outcome) := (splitList "," s).mapM decOutcome
+
+def decFile (s : String) : Option FileUp :=
+  match s.splitOn ":" with
+  | [p, n, ct, kind, c] => do
+    let content ← decodeHex c
+    let src ← match kind with
+      | "b" => some (FileSrc.bytes content)
+      | "p" => some (FileSrc.path content)
+      | "s" => some (FileSrc.seeker content false)
+      | "r" => some (FileSrc.stream content false)
+      | _ => none
+    pure ⟨← decodeHex p, ← decodeHex n, ← decodeHex ct, src⟩
+  | _ => none
+
+def decFiles (s : String) : Option (List FileUp) := (splitList ";" s).mapM decFile
+
+def decBody (s : String) : Option BodySrc :=
+  let rest := dropS s 1
+  match takeS s 1 with
+  | "n" => if rest == "" then some .none else none
+  | "b" => (decodeHex rest).map .bytes
+  | "u" => (decodeHex rest).map .user
+  | "m" => (decodeHex rest).map .marshal
+  | "r" => (decodeHex rest).map fun b => .reader b false
+  | _ => none
+
+/-! ### printing -/
+
+def bytesLt : Bytes → Bytes → Bool
+  | [], [] => false
+  | [], _ :: _ => true
+  | _ :: _, [] => false
+  | a :: as, b :: bs => if a < b then true else if b < a then false else bytesLt as bs
+
+/-- stable insertion sort by key (Go: `sort.Strings(keys)`) -/
+def insertBy {α : Type} (key : α → Bytes) (x : α) : List α → List α
+  | [] => [x]
+  | y :: ys => if bytesLt (key x) (key y) then x :: y :: ys else y :: insertBy key x ys
+
+def sortBy {α : Type} (key : α → Bytes) (l : List α) : List α :=
+  l.foldl (fun acc x => insertBy key x acc) []
+
+def encPairs (l : List (Bytes × Bytes)) : String :=
+  if l.isEmpty then "-" else ";".intercalate (l.map fun p => encodeHex p.1 ++ ":" ++ encodeHex p.2)
+
+/-- sorted by key, entries with no value dropped (nothing reaches the wire for them) -/
+def encMulti (m : Multi) : String :=
+  let m := (sortBy (fun e => e.1) m).filter fun e => !e.2.isEmpty
+  if m.isEmpty then "-" else
+  ";".intercalate (m.map fun e => encodeHex e.1 ++ ":" ++ ",".intercalate (e.2.map encodeHex))
+
+def encFilePart (f : FilePart) : String :=
+  ":".intercalate [encodeHex f.param, encodeHex f.name, encodeHex f.ctype, encodeHex f.content]
+
+def encBody : WBody → String
+  | .none => "n"
+  | .raw b => "r" ++ encodeHex b
+  | .form m => "f" ++ encPairs ((sortBy (fun e => e.1) m).flatMap fun e => e.2.map fun v => (e.1, v))
+  | .ordered kvs => "f" ++ encPairs kvs
+  | .multipart fields files =>
+    "p" ++ encPairs (sortBy (fun e => e.1) fields) ++ "/" ++
+      (if files.isEmpty then "-" else ";".intercalate (files.map encFilePart))
+
+def encWire (w : Wire) : String :=
+  "&".intercalate ["m=" ++ encodeHex w.method, "u=" ++ encodeHex w.url, "q=" ++ encMulti w.query,
+    "h=" ++ encMulti w.headers, "c=" ++ encPairs w.cookies, "b=" ++ encBody w.body]
+
+def encErrKind : ErrKind → String
+  | .transport => "t" | .deadline => "d" | .cancel => "c" | .body => "b" | .wrapper => "w"
+  | .before => "e" | .after i => "a" ++ toString i
+
+def encView : RespView → String
+  | .absent => "nil" | .noHttp => "nohttp" | .status c => toString c
+
+def encObs (o : Obs) : String :=
+  toString o.attempt ++ "/" ++ encView o.resp ++ "/" ++ (match o.err with | some k => encErrKind k | none => "-")
+
+/-- Duration the stub interval function `id` answers for `attempt`. -/
+def stubInterval (id attempt : Nat) : Nat := id * 1000 + attempt
+
+/-- Events → tokens; `obs` is the list of observed durations of the backoff calls, consumed in order. -/
+def encEvents (showWire : Bool) : List (Event Wire) → List Int → List String
+  | [], _ => []
+  | e :: t, obs =>
+    match e with
+    | .before ra => ("B" ++ toString ra) :: encEvents showWire t obs
+    | .wire ra w =>
+      ("W" ++ toString ra ++ (if showWire then "[" ++ encWire w ++ "]" else "")) :: encEvents showWire t obs
+    | .after i o => ("A" ++ toString i ++ "@" ++ encObs o) :: encEvents showWire t obs
+    | .cond id o r =>
+      ("C" ++ toString id ++ "@" ++ encObs o ++ "=" ++ (if r then "1" else "0")) :: encEvents showWire t obs
+    | .hook id o => ("H" ++ toString id ++ "@" ++ encObs o) :: encEvents showWire t obs
+    | .interval src a v =>
+      -- every interval call was observed by the harness; the observation must be what the
+      -- installed function answers (exactly, or — for the randomised backoff — within its bounds)
+      let pre := "I" ++ toString a ++ "@" ++ encView v ++ "="
+      match obs with
+      | [] => (pre ++ "missing-observation") :: encEvents showWire t []
+      | d :: obs' =>
+        let tok := match src with
+          | .dflt => toString (100000000 : Nat)
+          | .fn id => toString (stubInterval id a)
+          | .fixed n => toString n
+          | .backoff mn mx =>
+            let h := Req.Backoff.half mn mx a
+            -- the repaired function answers 0 when there is nothing to randomise
+            let ok := if h ≤ 0 then d == 0 else decide (h ≤ d) && decide (d < 2 * h)
+            if ok then toString d else "out-of-bounds:" ++ toString h
+        (pre ++ tok) :: encEvents showWire t obs'
+
+def encFinal (f : Final) : String :=
+  match f with
+  | .panic => "panic"
+  | .refused => "refused"
+  | .exhausted => "exhausted"
+  | .done _ _ =>
+    match f.returned with
+    | some (resp, err) =>
+      let r := match resp with
+        | some (a, .status c) => toString a ++ "/" ++ toString c
+        | some (_, v) => "-/" ++ encView v
+        | none => "-/nohttp"
+      let e := match err with
+        | some (a, k) => toString a ++ "/" ++ encErrKind k
+        | none => "-"
+      "R" ++ r ++ ":" ++ e
+    | none => "?"
+
+def textPlain : Bytes := ofStr "text/plain; charset=utf-8"
+
+def mkCfg (cookies : List (Bytes × Bytes)) (headers form query : Multi) (allowGet : Bool) : ClientCfg :=
+  { cookies, headers, form, query, allowGetPayload := allowGet,
+    -- `http.DetectContentType` on the harness's alphabet (printable text; NUL only as padding)
+    detect := fun b => if b.any (· == 0) then ofStr "application/octet-stream" else textPlain,
+    boundaryCT := ofStr "multipart/form-data; boundary=B",
+    formCT := ofStr "application/x-www-form-urlencoded",
+    jsonCT := ofStr "application/json; charset=utf-8",
+    ctKey := ofStr "Content-Type",
+    mGet := ofStr "GET", mHead := ofStr "HEAD", mOptions := ofStr "OPTIONS" }
+
+def mkPolicy (ro : Option RetryOption) (conds : List Pred) (hooks : List HookAct) (after : List Pred) :
+    Option (Policy ReqState) :=
+  match ro with
+  | none => some ⟨false, 0, [], [], after.map Pred.eval, .dflt⟩
+  | some o => do
+    let cs ← o.conds.mapM fun id => (conds[id]?).map fun p => (id, p.eval)
+    let hs ← o.hooks.mapM fun id => (hooks[id]?).map fun a => (id, a.apply)
+    pure ⟨true, o.maxRetries, cs, hs, after.map Pred.eval, o.interval⟩
+
+def laneRun (showWire : Bool) : List String → String
+  | [v, cops, rops, conds, hooks, after, script, bobs,
+     cck, chd, cfm, cq, cag,
+     method, url, ck, hd, fm, ord, q, mp, files, body] =>
+    let r : Option String := do
+      let v ← decVariant v
+      let ro := effective (← decSetters cops) (← decSetters rops)
+      let p ← mkPolicy ro (← decPreds conds) (← decHooks hooks) (← decPreds after)
+      let script ← decScript script
+      let bobs ← (splitList "," bobs).mapM String.toInt?
+      let cfg := mkCfg (← decPairs cck) (← decMulti chd) (← decMulti cfm) (← decMulti cq) (← decBool cag)
+      let st : ReqState := ⟨← decodeHex method, ← decodeHex url, ← decPairs ck, ← decMulti hd, ← decMulti fm,
+        ← decPairs ord, ← decMulti q, ← decBool mp, ← decFiles files, ← decBody body⟩
+      let tr := run v p (mw v cfg) (unreplayable v st) script st
+      pure (" ".intercalate (encEvents showWire tr.events bobs ++ [encFinal tr.final]))
+    r.getD "bad-op"
+  | _ => "bad-op"
+
+def laneBackoff : List String → String
+  | [g, mn, mx, a, d] =>
+    let r : Option String := do
+      let g ← decBool g
+      let mn ← mn.toInt?
+      let mx ← mx.toInt?
+      let a ← a.toNat?
+      -- the jitter is existential: the observed value must be reachable by SOME jitter
+      match Req.Backoff.interval g mn mx a 0 with
+      | .panic => pure "panic"
+      | .ok _ =>
+        if d == "p" then pure "ok-expected" else
+        let d ← d.toInt?
+        let h := Req.Backoff.half mn mx a
+        let ok := if h ≤ 0 then d == 0 else decide (h ≤ d) && decide (d < 2 * h)
+        pure (if ok then "ok" else "bad:" ++ toString h ++ ":" ++ toString (2 * h))
+    r.getD "bad-op"
+  | _ => "bad-op"
+
+def encInterval : IntervalSrc → String
+  | .dflt => "d" | .fn id => "f" ++ toString id | .fixed d => "x" ++ toString d
+  | .backoff a b => "b" ++ toString a ++ ":" ++ toString b
+
+def lanePolicy : List String → String
+  | [cops, rops] =>
+    let r : Option String := do
+      match effective (← decSetters cops) (← decSetters rops) with
+      | none => pure "nil"
+      | some o =>
+        pure ("n=" ++ toString o.maxRetries ++ " i=" ++ encInterval o.interval ++
+          " c=" ++ encodeNatList o.conds ++ " h=" ++ encodeNatList o.hooks)
+    r.getD "bad-op"
+  | _ => "bad-op"
+
+def lanes : List (String × (List String → String)) := [
+  ("c10run", laneRun true),
+  -- same model, the per-attempt wire requests not printed (the e2e lane compares raw captures itself)
+  ("c10trace", laneRun false),
+  ("c10backoff", laneBackoff),
+  ("c10policy", lanePolicy)
+]
 
 end Req.Driver.L.C10
